@@ -136,6 +136,7 @@ type connInfo struct {
 	Pings      int      `json:"pings,omitempty"`
 	Pongs      int      `json:"pongs,omitempty"`
 	MaxPongLat string   `json:"max_pong_latency,omitempty"`
+	liveSubs   []bool   // per Subs entry: neither stopped by the client nor ended by an upstream terminal
 }
 
 type upstream struct {
@@ -696,6 +697,17 @@ func (u *upstream) openCount() int {
 	return n
 }
 
+// openWS: the WebSocket connections the upstream still holds open.
+func (u *upstream) openWS() []connInfo {
+	var out []connInfo
+	for _, ci := range u.snapshot() {
+		if ci.Kind == "ws" && ci.State == "open" {
+			out = append(out, ci)
+		}
+	}
+	return out
+}
+
 func (u *upstream) connCount() int {
 	u.mu.Lock()
 	defer u.mu.Unlock()
@@ -741,6 +753,7 @@ func (u *upstream) snapshot() []connInfo {
 		}
 		for _, s := range c.subs {
 			ci.Subs = append(ci.Subs, s.Key)
+			ci.liveSubs = append(ci.liveSubs, !s.stopped && s.termSent == "")
 		}
 		out = append(out, ci)
 	}
